@@ -312,7 +312,20 @@ def tags_matches(ctx, s):
         if v == ("const", 1, "bool"):
             seen_true = True
             if cnt < 2:
-                okret = False
+                # the name compared byte-wise: both are one byte long and the bytes are equal
+                is_next = lambda y: y[0] == "call" and y[1].endswith("::next") and "tags" in y[1]
+                one = lambda X: any(f[0] == "eqc" and f[2] == 1 and f[1][0] == "len" and f[1][1] == X for f in fs)
+                bytewise = False
+                for f in fs:
+                    if f[0] == "eq" and isinstance(f[1], tuple) and f[1][0] == "elem" and f[1][2] == ("const", 0, "usize") and \
+                            isinstance(f[2], tuple) and f[2] and f[2][0] == "elem" and f[2][2] == ("const", 0, "usize"):
+                        a_, b_ = f[1][1], f[2][1]
+                        for X, L in ((a_, b_), (b_, a_)):
+                            if contains_value(X, is_next) and contains_value(L, letter) and one(X) and \
+                                    any(g[0] == "eqc" and g[2] == 1 and g[1][0] == "len" and contains_value(g[1][1], letter) for g in fs):
+                                bytewise = True
+                if not (cnt >= 1 and bytewise):
+                    okret = False
         elif v == ("const", 0, "bool"):
             continue
         elif v[0] == "call" and v[1].rsplit("::", 1)[-1] == "eq":
